@@ -148,7 +148,7 @@ class Gen:
                 ops = []
                 for _ in range(r.choice([1, 1, 2, 3])):
                     o = self.front_op()
-                    if o and not o.startswith(("T ", "Q")):
+                    if o and not o.startswith(("T ", "Q")) and "," not in o:   # ',' separates injected operations
                         ops.append(o.replace(" ", "_"))
                 if ops:
                     injs.append("@%d.%d=%s" % (site, k, ",".join(ops)))
